@@ -182,3 +182,44 @@ pub fn ref_decode(spec: &SpecTable, b: &[u8]) -> (Vec<TagV>, DecStop) {
         }
     }
 }
+
+/// Where a read boundary at stream offset `b` falls relative to the parsed structure:
+/// (phase, depth, kind of innermost open master) with phase 0 = on a tag boundary, 1 = inside an
+/// id, 2 = inside a size field, 3 = inside a payload, 4 = beyond the successfully parsed region;
+/// depth capped at 4; kind 0 = no master open, 1 = known-size, 2 = unknown-size.
+pub fn phase_at(walked: &[Walked], b: usize) -> (u8, u8, u8) {
+    let mut open: Vec<bool> = Vec::new(); // unknown-size?
+    let mut result: Option<(u8, u8, u8)> = None;
+    let mut parsed_end = 0usize;
+    for w in walked {
+        if w.tag.is_end() {
+            open.pop();
+            continue;
+        }
+        let idl = crate::enc::id_bytes(w.tag.id).len().min(w.hdr_len);
+        let hdr_end = w.off + w.hdr_len;
+        let end = if w.tag.is_start() { hdr_end } else { hdr_end + w.size.unwrap_or(0) as usize };
+        let kind = match open.last() {
+            None => 0,
+            Some(false) => 1,
+            Some(true) => 2,
+        };
+        let depth = open.len().min(4) as u8;
+        if result.is_none() {
+            if b == w.off {
+                result = Some((0, depth, kind));
+            } else if b > w.off && b < w.off + idl {
+                result = Some((1, depth, kind));
+            } else if b >= w.off + idl && b < hdr_end {
+                result = Some((2, depth, kind));
+            } else if b >= hdr_end && b < end {
+                result = Some((3, depth, kind));
+            }
+        }
+        if w.tag.is_start() {
+            open.push(w.size.is_none());
+        }
+        parsed_end = parsed_end.max(end);
+    }
+    result.unwrap_or(if b == parsed_end { (0, 0, 0) } else { (4, 0, 0) })
+}
